@@ -50,7 +50,8 @@ CreatedJudge(e) ==
 (*   direct   for file_direct / raw: the digest bytes found must BE the given bytes: ids compared             *)
 
 RefJudge(r) ==
-  IF r.form \in {"file", "envelope"} /\ r.pre # r.want THEN "DigestIsHashOfExactlyTheNamedBytes"
+  IF r.alg # r.wantalg THEN "DigestUnderTheNamedAlgorithm"
+  ELSE IF r.form \in {"file", "envelope"} /\ r.pre # r.want THEN "DigestIsHashOfExactlyTheNamedBytes"
   ELSE IF r.form \in {"file_direct", "raw"} /\ r.got # r.want THEN "DirectDigestCopiedVerbatim"
   ELSE IF r.size # r.wantsize THEN "SizeIsExactlyTheLength"
   ELSE "ok"
